@@ -2084,18 +2084,21 @@ pub mod vicmp {
     }
 
     impl Client {
-        /// one 7.3 record through the real decoder and the real `IcmpSink::write`
-        pub async fn request(&mut self, record: Vec<u8>) -> String {
+        /// one 7.3 record through the real decoder and the real `IcmpSink::write`; also the echo as
+        /// serialised for the wire (its data is drawn at random by the decoder)
+        pub async fn request(&mut self, record: Vec<u8>) -> (String, Vec<u8>) {
             let mut dec = http_downstream::verif_icmp_decoder(super::chunk_source(vec![record]));
             let d = match dec.read().await {
                 Ok(d) => d,
-                Err(_) => return "undecodable".into(),
+                Err(_) => return ("undecodable".into(), vec![]),
             };
-            match self.sink.write(d).await {
+            let wire = d.message.serialize().to_vec();
+            let status = match self.sink.write(d).await {
                 Ok(datagram_pipe::SendStatus::Sent) => "sent".into(),
                 Ok(datagram_pipe::SendStatus::Dropped) => "dropped".into(),
                 Err(e) => format!("err:{:?}", e.kind()),
-            }
+            };
+            (status, wire)
         }
 
         /// whatever has been delivered to this client so far, without waiting
